@@ -302,3 +302,27 @@ PROPS["C18"] = {
     "thorough": [R("TestPropParkedDispatch", 20000, shards=8, timeout=2400), R("TestPropAdminHistory", 8000, shards=3, steps=60, timeout=2400),
                  R("TestPropConcurrentChurn", 400, shards=3, timeout=2400), R("TestPropConcurrentChurn", 150, shards=2, race=True, timeout=2400)],
 }
+
+PROPS["C20"] = {
+    "pkg": "c20", "level": "exploration",
+    "rule": ("For each entry kind rapid draws an abstract entry with every documented option either OMITTED or set to a value distinct from every other "
+             "option's value, every default and every other destination's values, renders it twice - as a TOML section (random key case, both "
+             "sub/substr spellings, both present) fed through toml.Decode + cfg.InitTable, and as the equivalent command through imperatives.Apply "
+             "- into a recording table.Interface, and reads every field back (exported fields, route.Snapshot(), GetDestination + the verif-tagged "
+             "accessor for flush/reconn/connbuf/iobuf, (*GrafanaNet).Cfg). Oracle: both renderings give the same entry, equal to the model whose "
+             "defaults are transcribed from the tables in docs/config.md. Sub-checks: blacklist_rewriter, aggregation (all ten functions; "
+             "percentiles TOML-only; cache default not documented so only checked when set), carbon_route (3 types, 1-3 destinations, 10 numeric + "
+             "2 boolean + 6 filter options per destination), grafananet_route. interpolation: config texts assembled from the documented "
+             "variables (${VAR}, $VAR) and every other '$' shape ($1, ${1}, $10, ${name}, $$, $ before punctuation / at end, ${}, unterminated ${, "
+             "near-miss names) run through the real readConfigFile (package-main driver) must come back with only the documented variables "
+             "substituted. Non-trivial: >=3 options set and >=1 omitted; interpolation: text with both a documented variable and another '$' "
+             "sequence. Distinct = hash(rendered entry / text)."),
+    "level_text": "Differential (TOML vs command) + documentation-model property testing over generated option sets, and round-trip testing of configuration interpolation through the real package-main code; holds on all generated.",
+    "level_note": "kafkaMdm / pubsub / cloudWatch routes cannot be constructed offline. Values avoid spaces and tokens the command tokenizer treats specially (true/false/bare numbers for string options). $VAR without braces is undocumented: substituted or left alone are both accepted.",
+    "technique": "property-based testing (rapid): differential TOML-vs-command oracle + documentation-derived model; identity oracle for interpolation",
+    "assumptions": ["docs/config.md tables are the documented defaults", "the package-main test driver calls the real readConfigFile"],
+    "quick": [R("TestPropBlacklistAndRewriter", 1500), R("TestPropAggregation", 1200), R("TestPropCarbonRoute", 1200), R("TestPropGrafanaNetRoute", 150), R("TestPropInterpolation", 5000)],
+    "thorough": [R("TestPropBlacklistAndRewriter", 20000, shards=2, timeout=2400), R("TestPropAggregation", 10000, shards=3, timeout=2400),
+                 R("TestPropCarbonRoute", 10000, shards=6, timeout=2400), R("TestPropGrafanaNetRoute", 600, shards=3, timeout=2400),
+                 R("TestPropInterpolation", 200000, shards=2, timeout=2400)],
+}
